@@ -235,9 +235,16 @@ class MPS(DNAS):
         # conversion runs the model in eval mode (tracing and shape propagation): restore the
         # training flags and the sampled coefficients/statistics afterwards
         modes = [(m, m.training) for m in self.seed.modules()]
-        state = copy.deepcopy(self.seed.state_dict())
+        # N.B., the tensors themselves are put back (and written only if conversion changed them in
+        # place): the autograd graph of a forward pass that preceded export() still refers to them
+        state = [(d, name, t, t.detach().clone()) for m in self.seed.modules()
+                 for d in (m._parameters, m._buffers) for name, t in d.items() if t is not None]
         mod, _, _ = convert(self.seed, self._input_example, 'export')
-        self.seed.load_state_dict(state)
+        with torch.no_grad():
+            for d, name, t, value in state:
+                d[name] = t
+                if not torch.equal(t, value):
+                    t.copy_(value)
         for m, mode in modes:
             m.training = mode
         return mod
